@@ -2299,6 +2299,16 @@ impl<'a, E: quiver_core::effects::Effect> Compiler<'a, E> {
             // non-last branch whose condition was purely nil), abandon the table.
             if let Some(d) = &mut dispatch {
                 match branch_guard {
+                    // A branch that ends in a tail call has result type never: what a caller
+                    // gets for such an argument is whatever the callee of the tail call
+                    // returns, which this table cannot say. Without a table the call falls
+                    // back to the function's whole result type.
+                    Some(_)
+                        if branch_types.len() == branch_types_before + 1
+                            && self.is_never(branch_types[branch_types_before]) =>
+                    {
+                        d.valid = false;
+                    }
                     Some(guard) if branch_types.len() == branch_types_before + 1 => {
                         d.branches.push((guard, branch_types[branch_types_before]));
                     }
